@@ -340,7 +340,14 @@ func c19SchedUnit(scope, tier string, part, parts int) core.Unit {
 					func() string { return scen.SafeRun(sc.Ops[p.i], s) },
 					func() string { return scen.SafeRun(sc.Ops[p.j], s) },
 				}
-			}, want, bound)
+			}, want, func() int {
+				// thorough: two preemptions for the pairs among the first three operations and
+				// among the operations beyond the first six (ecosystem-specific spellings, collisions)
+				if tier == "thorough" && scope != "vers" && ((p.i < 3 && p.j < 3) || (p.i >= 6 && p.j >= 6 && p.j-p.i <= 1)) {
+					return 2
+				}
+				return bound
+			}())
 			r.Add("executions", ex.executions)
 			r.Add("transitions", ex.executions*int64(x.Steps))
 			for o := range ex.outcomes {
@@ -528,7 +535,7 @@ func init() {
 				"evaluations":                   r.Counters["sequences"] + r.Counters["executions"],
 				"distinct_nontrivial":           r.Counters["scenarios"] + r.Counters["sequences"],
 				"history_depth":                 c19Depth(tier),
-				"preemption_bound":              1,
+				"preemption_bound":              map[string]any{"quick": 1, "thorough": "1 for every scenario, 2 for the pairs among the first three operations and for neighbouring special operations"}[tier],
 				"schedules_explored":            r.Counters["executions"],
 				"scheduling_points":             r.Counters["scheduling_points"],
 				"dependent_steps_observed":      r.Counters["dependent_steps"],
